@@ -39,8 +39,10 @@ def IK.lo (k : IK) : Int := if k.signed then -(2 ^ (8 * k.size - 1) : Int) else 
 def IK.hi (k : IK) : Int := if k.signed then 2 ^ (8 * k.size - 1) - 1 else 2 ^ (8 * k.size) - 1
 def FK.size : FK → Nat | .f32 => 4 | .f64 => 8
 
-/-- identity of a ctypes simple class (`c_int8 is c_byte`, `c_uint8 is c_ubyte`, `c_int64 is c_long`) -/
-inductive CT | int (k : IK) | flt (k : FK) | char
+/-- identity of a ctypes simple class (`c_int8 is c_byte`, `c_uint8 is c_ubyte`, `c_int64 is c_long`), or of the array
+class `c_char * n` (the `_ctype` of `String(n)`: `String.__set__` hands an instance of exactly that class to ctypes
+unvalidated - where the char-array setter refuses it) -/
+inductive CT | int (k : IK) | flt (k : FK) | char | chars (n : Nat)
   deriving DecidableEq, Repr, Inhabited
 
 inductive PyErr | typeError | valueError | overflowError | indexError | attributeError
@@ -534,6 +536,12 @@ def setField (en : Bool) (ty : FTy) (old : Bytes) (key : Key) (v : PyVal) : Byte
      | _, _ => (old, some .typeError))
   | .str n =>
     (match key, v with
+     | .whole, .sc (.cdata (.chars m) raw) =>
+       -- `if isinstance(value, self._ctype): setattr(obj, self._private_name, value); return` - an instance of the
+       -- field's own array class `c_char * n` is handed to ctypes without validation, and the setter of a char-array
+       -- field refuses it ("expected bytes, c_char_Array_n found"): TypeError, validation on or off.  Of any other
+       -- length it is no `str` (validation on: TypeError; off: `value.encode` - AttributeError)
+       if m = n then (old, some .typeError) else lift old (setStr en n (.cdata (.chars m) raw))
      | .whole, .sc s => lift old (setStr en n s)
      | _, _ => (old, some .typeError))
   | .arr cls vk n =>
